@@ -206,7 +206,17 @@ class HistorySpec(object):
         from clikit.api.io import Output
         from clikit.io.output_stream import BufferedOutputStream
         st = HState()
-        st.stream = BufferedOutputStream()
+
+        class Flaky(BufferedOutputStream):
+            fail_next = False
+
+            def write(self, string):
+                if self.fail_next:
+                    self.fail_next = False
+                    raise IOError("Broken pipe")
+                return BufferedOutputStream.write(self, string)
+
+        st.stream = Flaky()
         out = Output(st.stream, _formatter(self.ansi))
         st.parent = out
         if self.kind == "output":
@@ -230,6 +240,8 @@ class HistorySpec(object):
                 out += [("w", i, m, f) for m in ("write", "write_line_raw") for f in (None, 1, 2, 4)]
                 # operations that are no settings: the formatter is replaced by one of the same kind, the stream by itself
                 out += [("fmt", i), ("stream", i)]
+                # one write fails at stream level (a transient I/O error); what follows is gated as before
+                out += [("wfail", i)]
             else:
                 out += [("w", i, "write_line", f) for f in (None, 2, 4)] + [("w", i, "overwrite", None), ("clear", i)]
         if self.kind != "output":
@@ -270,6 +282,14 @@ class HistorySpec(object):
                 r.set_formatter(_formatter(self.ansi))
             elif op[0] == "stream":
                 r.set_stream(st.stream)
+            elif op[0] == "wfail":
+                if (not r.is_quiet()) and r.verbosity >= 0:
+                    st.stream.fail_next = True
+                    try:
+                        r.write("lost in transit")
+                    except IOError:
+                        pass
+                    st.stream.fail_next = False
             elif op[0] == "clear":
                 r.clear()
             else:
@@ -309,7 +329,47 @@ class HistorySpec(object):
         return []
 
 
+def concurrent_writes(choices=None):
+    """E3 (mc/sched.py): two threads write through ONE output at the same time, every interleaving at the granularity of source
+    lines of api/io/output.py with at most one preemption: each admitted text reaches the stream, whatever the other thread does.
+    -> (stats, violations) or, with `choices`, the violation of that one schedule"""
+    from mc import sched
+    from clikit.api.io import Output
+    from clikit.io.output_stream import BufferedOutputStream
+    methods = [("write_line", "first"), ("write", "second"), ("write_line_raw", "third")]
+    pairs = [(0, 1), (1, 0), (0, 2), (2, 1)]
+
+    def run(pi_, ch):
+        stream = BufferedOutputStream()
+        out = Output(stream, _formatter(False))
+        a, b = pairs[pi_]
+        thunks = [lambda m=methods[a]: getattr(out, m[0])(m[1]), lambda m=methods[b]: getattr(out, m[0])(m[1] + "!")]
+        s_, got, exc, alive = sched.run_pair(ch, thunks, "api/io/output.py", horizon=20000)
+        text = stream.fetch()
+        case = {"concurrent": pi_, "choices": [p.chosen for p in s_.points]}
+        vs = []
+        crashed = [t.exc for t in s_.threads[1:3] if t.exc is not None]
+        if s_.deadlock or s_.livelock or exc is not None or alive or crashed:
+            vs.append(report.viol("concurrent:stuck-or-crash", "two concurrent writes did not both finish: %r" % ([s_.deadlock, s_.livelock, repr(exc), alive, [repr(c) for c in crashed]],), case))
+        elif methods[a][1] not in text or methods[b][1] + "!" not in text:
+            vs.append(report.viol("concurrent:lost:%s+%s" % (methods[a][0], methods[b][0]), "a text written while another thread wrote through the same "
+                                  "(loud) output did not reach the stream", case, [methods[a][1], methods[b][1] + "!"], text))
+        return s_.points, vs
+
+    if choices is not None:
+        return run(choices[0], choices[1])[1]
+    execs, allv = 0, []
+    for pi_ in range(len(pairs)):
+        st, vs = sched.explore(lambda ch: run(pi_, ch), 1)
+        execs += st["execs"]
+        allv.extend(vs[:1])
+    return execs, allv
+
+
 def replay(case):
+    if isinstance(case, dict) and "concurrent" in case:
+        vs = concurrent_writes((case["concurrent"], case.get("choices") or []))
+        return vs[0] if vs else None
     if isinstance(case, dict) and "history" in case:
         from mc import explore
         return explore.replay(HistorySpec(case["kind"], case["ansi"]), case)
@@ -330,6 +390,10 @@ def main():
 
     for vs in par.pmap(work, par.chunks(cs, common.ncpu() * 2)):
         rep.merge(vs)
+    nsched, cv = concurrent_writes()
+    rep.merge(cv)
+    rep.part("concurrent-writes", schedules=nsched, preemption_bound=1, granularity="source lines of api/io/output.py",
+             what="two threads writing through one output (write_line / write / write_line_raw in 4 pairings): both texts reach the stream")
     # monotonicity corollary, computed from the table itself: for fixed (kind, method, flags, ansi)
     # the set of (verbosity, loud) at which text is shown is upward closed -- follows from the gate
     # formula when every cell agrees with it, which is what was just checked.
